@@ -17,12 +17,12 @@ CHECKS = {
         note='LMDB call semantics trusted; nothing structural left undecided.'),
     'C08': dict(
         technique='effect tables (who-may-call) + transaction provenance over resolved MIR callees',
-        text='Decides the code-anchored necessary condition "arroy adds no side channel around the caller\'s transaction": zero transaction/environment calls or fn-pointer uses in the library, every heed operation takes the caller\'s transaction, no global mutable state, Reader/Writer free of interior mutability, unsafe Sync impls audited. LMDB\'s MVCC itself is trusted, not verified.',
+        text='Decides the code-anchored necessary condition "arroy adds no side channel around the caller\'s transaction": zero transaction/environment calls or fn-pointer uses in the library, every heed operation takes the caller\'s transaction, no global mutable state, Reader/Writer free of interior mutability, unsafe Sync impls audited. LMDB\'s MVCC itself is trusted, not verified. "Exactly one committed version, complete and searchable" also needs what a writer leaves in its transaction to be servable: the C01 forest rules and the C06 staleness rules are re-evaluated here.',
         design='DESIGN.md §4 C08/C09',
         note='NOT decided: visibility at commit and snapshot stability under thread schedules (LMDB).'),
     'C09': dict(
         technique='effect tables (who-may-call) over resolved MIR callees',
-        text='Decides "no durability side channel": the library never commits/aborts/syncs/opens environments, all writes go through the caller\'s transaction, the only filesystem effects are anonymous temp files in the TmpNodes constructors, no global state. Crash atomicity itself is LMDB\'s and is trusted.',
+        text='Decides "no durability side channel": the library never commits/aborts/syncs/opens environments, all writes go through the caller\'s transaction, the only filesystem effects are anonymous temp files in the TmpNodes constructors, no global state. Crash atomicity itself is LMDB\'s and is trusted. The state a crash can expose is what a writer leaves in its transaction: the C01 forest rules and the C06 staleness rules are re-evaluated here.',
         design='DESIGN.md §4 C08/C09',
         note='NOT decided: the set of crash states LMDB can expose.'),
 }
@@ -86,12 +86,12 @@ CHECKS.update({
         note='NOT decided: numerical truth of distances (C11); forest completeness (C01).'),
     'C03': dict(
         technique='edge-dominance filter rule, loop-exit enumeration, def-use audit of the budget, formula extraction, per-metric header field read/write sets',
-        text='Every id entering the candidate list is filtered or under the no-filter branch; the budget only gates the loop and is (search_k or count x n_trees) x (oversampling or DEFAULT) with saturating arithmetic; bounded distinct ordered output; by_item and by_vector share the traversal, unknown id => Ok(None); per metric the query path reads no header field that only the build-time preprocess fills. The C11 kernel-shape rules are re-evaluated (distances the results are ordered by).',
+        text='Every id entering the candidate list is filtered or under the no-filter branch; the budget only gates the loop and is (search_k or count x n_trees) x (oversampling or DEFAULT) with saturating arithmetic; bounded distinct ordered output; by_item and by_vector share the traversal, unknown id => Ok(None); per metric the query path reads no header field that only the build-time preprocess fills. The C11 kernel-shape rules and the forest / staleness premises (C01, C06 rule sets) are re-evaluated.',
         design='DESIGN.md §4 C03',
         note='NOT decided: distance truth (C11); monotonicity is a consequence of the checked premises, not checked on values.'),
     'C04': dict(
         technique='finite sign-domain abstract interpretation (incl. NaN) of side/pq_distance + L/R tag propagation + pairing rules',
-        text='margin>0 => Right, <0 => Left; pq_distance keeps the routed side positive and the other negative (default methods and every override); margin_no_header impls forward both args to one symmetric kernel; every split construction pairs children with sides; reader pushes left with Side::Left; max-heap; random children <=> zeroed normal.',
+        text='margin>0 => Right, <0 => Left; pq_distance keeps the routed side positive and the other negative (default methods and every override); margin_no_header impls forward both args to one symmetric kernel; every split construction pairs children with sides; reader pushes left with Side::Left; max-heap; random children <=> zeroed normal; centroid / normalisation guards keep NaN out of split normals; the forest / staleness premises (C01, C06 rule sets) are re-evaluated (an overwritten vector must leave its old position and be re-routed).',
         design='DESIGN.md §4 C04',
         note='NOT decided: nothing structural; exactly-zero margins exempt by the property.'),
     'C11': dict(
@@ -101,7 +101,7 @@ CHECKS.update({
         note='NOT decided: rounding error and last-ulp agreement (a statement about values); simple_neon.rs not compiled on this host. One known finding (SSE4.1 intrinsic behind an sse check) is listed in known_findings.json.'),
     'C12': dict(
         technique='coefficient extraction (linear form in the popcount), finite-domain evaluation of the bit->value map, state-machine and mask-table extraction from MIR',
-        text='4h/d and 2h/d by construction (constant coefficient x popcount(u xor v) / declared dimension); quantised dot product and cosine form; decoder maps bit1->+1, bit0->-1 LSB-first reloading every 64; packer puts component i at bit i with 1 = positive sign bit, one NE word per 64, padding bits 0 on both entry points; SSE mask/lane/store table; feature guards; truncation.',
+        text='4h/d and 2h/d by construction (constant coefficient x popcount(u xor v) / declared dimension); quantised dot product and cosine form; decoder maps bit1->+1, bit0->-1 LSB-first reloading every 64; packer puts component i at bit i with 1 = positive sign bit, one NE word per 64, padding bits 0 on both entry points; SSE mask/lane/group/store table; feature guards; truncation; every D::normalized_distance call passes the declared dimension; the quantised cosine quotient is guarded by its own denominator; C18\'s metric-change rules are re-evaluated (the stored norm header).',
         design='DESIGN.md §4 C12',
         note='NOT decided: bit-exact round trip for all patterns/dimensions; NEON paths. Known finding shared with C11.'),
     'C14': dict(
@@ -111,12 +111,12 @@ CHECKS.update({
         note='NOT decided: termination when re-splitting does not shrink (C20); time.'),
     'C15': dict(
         technique='edge-dominance capacity gate on every bucket write, dominance of the worklist drain over the metadata put, formula/loop rules for the tree count',
-        text='fit_in_descendant is n <= split_after.unwrap_or(dimensions); every bucket write is under it, or queued for re-splitting, or a shrunk copy, or in a function only called under it; worklist drained before metadata; explicit Some(n) used unchanged, surplus roots removed with their trees deleted, exactly target - roots.len() roots created.',
+        text='fit_in_descendant is n <= split_after.unwrap_or(dimensions); every bucket write is under it, or queued for re-splitting, or a shrunk copy, or in a function only called under it; worklist drained before metadata; explicit Some(n) used unchanged, surplus roots removed with their trees deleted, exactly target - roots.len() roots created; the forest / staleness premises (C01, C06 rule sets) are re-evaluated.',
         design='DESIGN.md §4 C15',
         note='NOT decided: arithmetic of the automatic tree count (0 for dimensions = 1 -- observed, value-level, never reported); numeric equality roots.len() == n.'),
     'C20': dict(
         technique='type audit of ordered containers, sign-domain totality of side(), bounded-loop (strictly decreasing counter / constant range) rules, guard dominance rules',
-        text='No ordering on bare floats and no unwrap of float partial_cmp; side() total on NaN/0; split retries bounded by a strictly decreasing counter with a random fallback paired with a zero normal; no 0/0 in the imbalance; two-means bounded with NaN/non-positive norm guards; normalisation only under norm > 0; Cosine 0 for vanishing norms; the search path is value-independent in shape. The C01 forest rules are re-evaluated.',
+        text='No ordering on bare floats and no unwrap of float partial_cmp; side() total on NaN/0; split retries bounded by a strictly decreasing counter with a random fallback paired with a zero normal; no 0/0 in the imbalance; two-means bounded with NaN/non-positive norm guards; normalisation only under norm > 0; Cosine 0 for vanishing norms; the search path is value-independent in shape; the worklist of over-full buckets drains (C14 progress rules); the forest / staleness premises (C01, C06 rule sets) are re-evaluated.',
         design='DESIGN.md §4 C20',
         note='NOT decided: termination of the recursion on all-duplicate sets (probabilistic); bounded time; invariant-guarded unwraps.'),
 })
